@@ -80,6 +80,13 @@ def damages(spec, info):
         if h[f]:
             for nv in variants(h[f], offsets=True):
                 out.append(dict(kind='field', field=f, value=nv))
+    # a TEXT begin offset that lands exactly on the delimiter in front of a later keyword (the segment then parses,
+    # without its first keywords)
+    if h['text_begin']:
+        delim = spec.get('delim', '/')
+        for k in range(1, min(13, len(info['pairs']))):
+            pos = h['text_begin'] + len(fcsgen.encode_pairs(info['pairs'][:k], delim).encode('latin-1')) - 1
+            out.append(dict(kind='field', field='text_begin', value=pos))
     if spec['version'] != 'FCS2.0':
         for f, v in (('$BEGINDATA', info['data_begin']), ('$ENDDATA', info['data_end'])):
             for nv in variants(v, offsets=True):
